@@ -17,7 +17,7 @@ BREAKER_EVENTS = {"circuit_opened", "circuit_half_open", "circuit_closed", "circ
 
 class Attempt:
     __slots__ = ("k", "begin", "end", "events", "kind", "cls", "obj", "t_begin", "t_end",
-                 "fclass", "cause")
+                 "fclass", "cause", "timed_out")
 
     def __init__(self, k, begin):
         self.k = k
@@ -31,6 +31,7 @@ class Attempt:
         self.t_end = None
         self.fclass = None    # class the classifier reported for this failure
         self.cause = None
+        self.timed_out = False
 
     def after(self, name):
         """events of kind `name` after OP_END within this attempt's segment"""
@@ -109,6 +110,13 @@ def split_calls(trace) -> dict[int, CallFacts]:
                 a.cls = e.get("cls")
                 a.obj = e.get("obj")
                 a.t_end = e["t"]
+                if a.kind == "timeout":
+                    # the per-attempt timeout fired: the attempt failed with the library's TimeoutError, whose class
+                    # is what the policy's classifier says about TimeoutError (configuration: cfg.timeout_cls)
+                    a.cause = "exception"
+                    a.fclass = e.get("cls")
+                    a.kind = "exc"
+                    a.timed_out = True
                 if a.kind == "exc":
                     a.cause = "exception"
                 elif a.kind == "res":
